@@ -2,6 +2,7 @@
 returning one canonical observation per operation."""
 import collections.abc  # noqa: F401  (yaql on py3.12 needs it imported first)
 import copy
+import datetime
 import json
 import logging
 import os
@@ -33,6 +34,8 @@ def to_json(v):
         return {(k if isinstance(k, str) else str(k)): to_json(x) for k, x in v.items()}
     if isinstance(v, (set, frozenset)):
         return sorted((to_json(x) for x in v), key=lambda x: json.dumps(x, sort_keys=True))
+    if isinstance(v, (datetime.datetime, datetime.date)):
+        return "<%s %s>" % (type(v).__name__, v.isoformat())      # engine-only runs with non-JSON inputs
     if hasattr(v, "__iter__"):
         return [to_json(x) for x in v]
     raise wire.WireError("engine value of type %s is not JSON" % type(v).__name__)
@@ -42,7 +45,8 @@ def canon_message(m):
     for b in BUILTIN_EXC:
         if m.startswith(b + ":"):
             return b + ":"
-    return m
+    # the JSON model has no tuples: the evaluator oracle hands a tuple over as a list
+    return m.replace("Unable to use the value of type 'tuple' evaluated", "Unable to use the value of type 'list' evaluated")
 
 
 def canon_errent(e):
